@@ -3,6 +3,7 @@ package main
 // Loops, map ranges, calls.
 
 import (
+	"os"
 	"fmt"
 	"go/token"
 	"go/types"
@@ -581,6 +582,9 @@ func (vc *VC) execCall(fr *Frame, st *State, x *ssa.Call) {
 		if fr.depth == 0 && fr.con != nil && len(fr.con.Asserts) > 0 {
 			k := callOrdinal(fr.fn, x, b.Name())
 			keys := []string{fmt.Sprintf("%s#%d", b.Name(), k)}
+			if os.Getenv("GOVC_DEBUG_CUT") != "" {
+				fmt.Fprintf(os.Stderr, "CUT %s#%d at %s\n", b.Name(), k, vc.pos(x.Pos()))
+			}
 			vc.cutPoints(fr, st, keys, "")
 			fr.regs[x] = vc.builtin(fr, st, x, b.Name(), args)
 			vc.cutPoints(fr, st, keys, "after ")
@@ -945,6 +949,7 @@ func (vc *VC) applyModifies(fr *Frame, st, old *State, con *Contract, env *Env) 
 			// allocation only: also trigger on reads of the old heap, so that facts
 			// about existing objects carry over to the new heap term
 			vc.assume(fmt.Sprintf("(forall ((a Int)) (! (=> %s (= (select %s a) (select %s a))) :pattern ((select %s a)) :pattern ((select %s a))))", and(outside...), nh, h, nh, h))
+			vc.bytesFrame(k, h, nh, oldAlloc)
 		} else {
 			vc.assume(fmt.Sprintf("(forall ((a Int)) (! (=> %s (= (select %s a) (select %s a))) :pattern ((select %s a))))", and(outside...), nh, h, nh))
 		}
@@ -1170,6 +1175,10 @@ func callOrdinal(fn *ssa.Function, x *ssa.Call, name string) int {
 			return b.Name()
 		}
 		if c.Call.IsInvoke() {
+			// a devirtualised interface call counts as a call of the method
+			if i := strings.LastIndex(name, "."); i >= 0 && name[i+1:] == c.Call.Method.Name() {
+				return name
+			}
 			return ""
 		}
 		switch f := c.Call.Value.(type) {
@@ -1180,11 +1189,14 @@ func callOrdinal(fn *ssa.Function, x *ssa.Call, name string) int {
 		}
 		return ""
 	}
+	if !x.Pos().IsValid() {
+		return -1 // compiler-generated call (e.g. the len of a range loop)
+	}
 	n := 0
 	for _, b := range fn.Blocks {
 		for _, in := range b.Instrs {
 			c, ok := in.(*ssa.Call)
-			if !ok || c == x {
+			if !ok || c == x || !c.Pos().IsValid() {
 				continue
 			}
 			if calleeName(c) == name && c.Pos() < x.Pos() {
